@@ -307,4 +307,30 @@ def probesList (cur : Option (Bool × Bool)) : List Scoped → List (Option (Boo
   | x :: xs => x.probes cur ++ probesList cur xs
 end
 
+/-! ### How a block is opened: `operator_overloading(op, type_promotion=False, constant_promotion=True)` -/
+
+/-- The two options of one `operator_overloading(...)` call, each given (positionally or by keyword) or omitted. -/
+structure OOCall where
+  tp : Option Bool
+  cp : Option Bool
+deriving DecidableEq, Repr, Inhabited
+
+/-- The settings of the block: an omitted option takes the signature's default (`dflt`, read from the source on every
+    run); a GIVEN option is taken as given - `False` included. Nothing is inherited from an enclosing block. -/
+def OOCall.settings (dflt : Bool × Bool) (c : OOCall) : Bool × Bool := (c.tp.getD dflt.1, c.cp.getD dflt.2)
+
+/-- Block programs with the calls as written. -/
+inductive ScopedC
+  | probe
+  | block (c : OOCall) (body : List ScopedC)
+
+mutual
+def ScopedC.toScoped (dflt : Bool × Bool) : ScopedC → Scoped
+  | .probe => .probe
+  | .block c body => .block (c.settings dflt) (ScopedC.listToScoped dflt body)
+def ScopedC.listToScoped (dflt : Bool × Bool) : List ScopedC → List Scoped
+  | [] => []
+  | x :: xs => x.toScoped dflt :: ScopedC.listToScoped dflt xs
+end
+
 end Dispatch
